@@ -757,13 +757,14 @@ def post_model(hyp, case, mouts, iouts):
     for i, c in enumerate(case["cmds"]):
         if c[0] != "run":
             continue
-        m = mouts[i]
+        m, sep, spec = mouts[i].partition(" ## ")
         if m.startswith("ok "):
             try:
                 q, j = im.build_w(m.split(" ")[1:], 0, im.cat)
-                out[i] = idset(q.execute(optimize=False).ids)
+                m = idset(q.execute(optimize=False).ids)
             except Exception as e:
-                out[i] = exc_name(e)
+                m = exc_name(e)
+        out[i] = m + sep + spec
     return out
 
 
@@ -1145,10 +1146,15 @@ def gen(rng, tier, idx):
 
 # ---------------------------------------------------------------------------- classification, witnesses
 def classify(case, i, impl, model, spec):
+    """the model mirrors D11 / D17, the specification answer does not: the implementation may agree with the model
+    (known finding reproduces) or with the specification (it was repaired); anything else is unlisted"""
     c = case["cmds"][i]
-    if c[0] == "parse" and spec == "reject" and impl.startswith("ok") and impl == model:
-        return "D11"
-    if c[0] == "exec" and impl == model and impl != spec and "range" in impl:
+    if c[0] == "parse" and spec == "reject" and model.startswith("ok"):
+        if impl == model or impl.startswith("err "):
+            return "D11"
+    if c[0] in ("exec", "run") and spec == "reject" and not model.startswith("err "):
+        return "D11"        # the parsed object is not a query tree over values; `parse` on the same text compares it
+    if c[0] == "exec" and model != spec and "range" in model and impl in (model, spec):
         return "D17"
     return None
 
